@@ -85,7 +85,7 @@ fn replay_kind() -> String {
 fn check<S: batch::Scenario>(sc: &S, env: &batch::Env) -> i32 {
     use batch::Scenario;
     let r1 = batch::run_batch(sc, env, env.runs_override.unwrap_or_else(|| sc.runs(env.tier)));
-    let pl = pipeline::Pipeline { prop: sc.id() };
+    let pl = pipeline::Pipeline { prop: sc.id(), own_plans: env.tier == batch::Tier::Thorough };
     let r2 = batch::run_batch(&pl, env, batch::extra_runs(pl.runs(env.tier), "VERIF_PIPELINE_RUNS"));
     batch::write_evidence(env, sc.id(), &r1, &[("pipeline", &r2)]);
     batch::exit_of(&[&r1, &r2])
@@ -95,7 +95,7 @@ fn check_c06(env: &batch::Env) -> i32 {
     use batch::Scenario;
     let r1 = batch::run_batch(&c06::C06, env, env.runs_override.unwrap_or_else(|| c06::C06.runs(env.tier)));
     let r2 = batch::run_batch(&c06::Decode1090Pos, env, batch::extra_runs(c06::Decode1090Pos.runs(env.tier), "VERIF_PROC_RUNS"));
-    let pl = pipeline::Pipeline { prop: "C06" };
+    let pl = pipeline::Pipeline { prop: "C06", own_plans: env.tier == batch::Tier::Thorough };
     let r3 = batch::run_batch(&pl, env, batch::extra_runs(pl.runs(env.tier), "VERIF_PIPELINE_RUNS"));
     let r4 = batch::run_batch(&c06::PyBinding, env, batch::extra_runs(c06::PyBinding.runs(env.tier), "VERIF_PY_RUNS"));
     batch::write_evidence(env, "C06", &r1, &[("decode1090_process", &r2), ("pipeline", &r3), ("python_binding_process", &r4)]);
@@ -105,7 +105,7 @@ fn check_c06(env: &batch::Env) -> i32 {
 fn check_c17(env: &batch::Env) -> i32 {
     use batch::Scenario;
     let r1 = batch::run_batch(&c17::C17, env, env.runs_override.unwrap_or_else(|| c17::C17.runs(env.tier)));
-    let pl = pipeline::Pipeline { prop: "C17" };
+    let pl = pipeline::Pipeline { prop: "C17", own_plans: env.tier == batch::Tier::Thorough };
     let r2 = batch::run_batch(&pl, env, batch::extra_runs(pl.runs(env.tier), "VERIF_PIPELINE_RUNS"));
     let r3 = batch::run_batch(&c17::C17Seq, env, batch::extra_runs(c17::C17Seq.runs(env.tier), "VERIF_SEQ_RUNS"));
     batch::write_evidence(env, "C17", &r1, &[("pipeline", &r2), ("exhaustive_sequences", &r3)]);
@@ -116,7 +116,7 @@ fn check_c10(env: &batch::Env) -> i32 {
     use batch::Scenario;
     let r1 = batch::run_batch(&c10::C10, env, env.runs_override.unwrap_or_else(|| c10::C10.runs(env.tier)));
     let r2 = batch::run_batch(&c10::Decode1090Proc, env, batch::extra_runs(c10::Decode1090Proc.runs(env.tier), "VERIF_PROC_RUNS"));
-    let pl = pipeline::Pipeline { prop: "C10" };
+    let pl = pipeline::Pipeline { prop: "C10", own_plans: env.tier == batch::Tier::Thorough };
     let r3 = batch::run_batch(&pl, env, batch::extra_runs(pl.runs(env.tier), "VERIF_PIPELINE_RUNS"));
     let r4 = batch::run_batch(&c10::C10Grid, env, batch::extra_runs(c10::C10Grid.runs(env.tier), "VERIF_GRID_RUNS"));
     batch::write_evidence(env, "C10", &r1, &[("decode1090_process", &r2), ("pipeline", &r3), ("exhaustive_grid", &r4)]);
@@ -159,11 +159,11 @@ fn verif_entry() {
             ("C17", "sequences") => replay_or_det(&c17::C17Seq, &cmd, &env),
             ("C12", "focused") => replay_or_det(&c12::C12, &cmd, &env),
             ("C17", "focused") => replay_or_det(&c17::C17, &cmd, &env),
-            ("C06", "pipeline") => replay_or_det(&pipeline::Pipeline { prop: "C06" }, &cmd, &env),
-            ("C09", "pipeline") => replay_or_det(&pipeline::Pipeline { prop: "C09" }, &cmd, &env),
-            ("C10", "pipeline") => replay_or_det(&pipeline::Pipeline { prop: "C10" }, &cmd, &env),
-            ("C12", "pipeline") => replay_or_det(&pipeline::Pipeline { prop: "C12" }, &cmd, &env),
-            ("C17", "pipeline") => replay_or_det(&pipeline::Pipeline { prop: "C17" }, &cmd, &env),
+            ("C06", "pipeline") => replay_or_det(&pipeline::Pipeline { prop: "C06", own_plans: false }, &cmd, &env),
+            ("C09", "pipeline") => replay_or_det(&pipeline::Pipeline { prop: "C09", own_plans: false }, &cmd, &env),
+            ("C10", "pipeline") => replay_or_det(&pipeline::Pipeline { prop: "C10", own_plans: false }, &cmd, &env),
+            ("C12", "pipeline") => replay_or_det(&pipeline::Pipeline { prop: "C12", own_plans: false }, &cmd, &env),
+            ("C17", "pipeline") => replay_or_det(&pipeline::Pipeline { prop: "C17", own_plans: false }, &cmd, &env),
             _ => {
                 println!("HARNESS-ERROR: unknown property/scenario '{}'/'{}'", prop, kind);
                 2
